@@ -209,7 +209,10 @@ def run(rep, tier, seed, selftest):
         for v in what.values():
             if isinstance(v, dict) and "out" in v:
                 v["out"] = v["out"][:200]
-        rep.violation("%s/%s" % (r["ev"], "crash" if r.get("died") else "differs"), "seed=%s prog=%s" % (r.get("seed"), r.get("prog")),
+        tag = ""
+        if r["ev"] == "hist" and r.get("died") and r.get("shared_structs") and any(sig in r["died"] for sig in LLVM_VERIFIER):
+            tag = "[same-named-structures] "          # the input class of a known finding: both modules declare a structure S<n>
+        rep.violation("%s/%s" % (r["ev"], "crash" if r.get("died") else "differs"), "%sseed=%s prog=%s" % (tag, r.get("seed"), r.get("prog")),
                       {"part": r["ev"], "seed": r.get("seed"), "prog": r.get("prog"), "observed": what,
                        "message": "TLC (Trace_Modules.THist) rejects this record: module B does not give the same verdict, "
                                   "diagnostics, lints and behaviour alone, after an unrelated module, and linked with it",
